@@ -24,7 +24,7 @@ type e13desc struct {
 }
 
 var e13Triggers = []string{"close", "close3", "cancel", "list-error", "close5"}
-var e13States = []string{"plain", "slow-lists", "watch-block", "watch-flap", "not-ready", "watch-frames"}
+var e13States = []string{"plain", "slow-lists", "watch-block", "watch-flap", "not-ready", "watch-frames", "slow-connect"}
 
 const e13Steps = 14
 
@@ -93,6 +93,12 @@ func e13RunCtx(r *Res, d e13desc, fireStep, firePoint, fireCtx int) (int, int) {
 			case 1:
 				f.CloseAfter = 2
 			}
+		case "slow-connect":
+			// connecting takes a while; a cancellation during it is answered with the
+			// established stream; every other stream ends after two events
+			f.Latency = 300 * time.Millisecond
+			f.LateStream = true
+			f.CloseAfter = 2
 		case "watch-frames":
 			// frames that are not API objects, then a close on every other stream
 			f.Frames = map[int][]watchEvent{
@@ -372,6 +378,9 @@ func e13RunCtx(r *Res, d e13desc, fireStep, firePoint, fireCtx int) (int, int) {
 			r.V("C12", "zombie", "root is done but %s is not", n)
 		}
 	}
+	if n := srv.UnstoppedStreams(); n > 0 {
+		r.V("C12", "watch-stream-left-open", "trigger %s at %s in state %s: the root is done but %d watch stream(s) handed out by the client were never stopped (a zombie connection each)", d.Trigger, where, d.State, n)
+	}
 	// ---- API calls after Done ----
 	type call struct {
 		name string
@@ -516,6 +525,117 @@ func e13CtxCase(seed uint64, scen int, state string, k, K int) Case {
 	}}
 }
 
+
+// eRetryExpiryCase: something that stops the controller (Close, context
+// cancellation, a failing relist) reaches the watcher at (almost) the instant
+// the reconnect delay of an earlier disconnect expires, with the watcher held
+// at its own log points so that the expiry falls into its handling of the
+// shutdown.  Done() must close, nothing may be left behind, and a failing list
+// must be reported.  prop is the property the case is run for (C12 / C14).
+func eRetryExpiryCase(prop string, seed uint64, n int, trigger string) Case {
+	id := fmt.Sprintf("E13/stop-at-reconnect-expiry/%s/%d/%d", trigger, seed, n)
+	hold := []time.Duration{200 * time.Microsecond, 600 * time.Microsecond, 1500 * time.Microsecond}[n%3]
+	// the watcher is held at EVERY log point, so the reconnect delay starts several holds
+	// after the disconnect (one per event and one for the end of the session): sweep the
+	// lead from 5 holds after the nominal expiry to one hold before it, in quarter holds
+	off := time.Duration(n/3%24-20) * hold / 4
+	return Case{ID: id, Desc: map[string]interface{}{"seed": seed, "n": n, "trigger": trigger, "watcher_hold": hold.String(), "lead_before_expiry": off.String()}, Bubble: true, Run: func(r *Res) {
+		rng := kit.NewRng(kit.Mix(seed, uint64(n)+1390))
+		core := kit.NewCore(&kit.Plan{Seed: rng.U64(), PYield: 100, Targets: map[string]time.Duration{"watcher|": hold}})
+		srv := kit.NewPodServer(core)
+		for _, nm := range []string{"a", "b"} {
+			srv.Put(kit.Pod("n0", nm, "", map[string]string{"l": "x"}))
+		}
+		release := make(chan struct{})
+		released := false
+		if trigger == "list-error" {
+			// (the held list is released by this case itself, always; for the other
+			// triggers nothing is held: the client must honour cancellation)
+			srv.OnList = func(i int) {
+				if i == 2 {
+					<-release
+				}
+			}
+		}
+		srv.ListPlan = func(i int) kit.ListFault {
+			if i == 2 && trigger == "list-error" {
+				return kit.ListFault{Kind: kit.ListErr}
+			}
+			return kit.ListFault{}
+		}
+		srv.WatchPlan = func(i int) kit.WatchFault {
+			f := kit.NoWatchFault()
+			if i == 1 {
+				f.CloseAfter = 2
+			}
+			return f
+		}
+		g, err := newCtlRig(core, srv, 10*time.Second, nil)
+		if err != nil {
+			close(release)
+			r.Inc(err.Error())
+			return
+		}
+		defer func() {
+			if !released {
+				close(release)
+			}
+		}()
+		sub, _ := g.ctl.Subscribe()
+		mir := startMirror("sub", sub.Events(), sub.Ready(), nil)
+		_ = mir
+		if !waitCh(g.ctl.Ready(), virtBound) {
+			r.V(prop, "never-ready", "controller not ready")
+			return
+		}
+		if trigger == "list-error" {
+			for i := 0; i < 3000 && len(srv.Lists()) < 2; i++ {
+				time.Sleep(10 * time.Millisecond)
+			}
+			if len(srv.Lists()) != 2 {
+				r.Inc("list #2 not observed")
+				return
+			}
+		} else {
+			time.Sleep(time.Duration(1+rng.Intn(3000)) * time.Millisecond)
+		}
+		srv.Put(kit.Pod("n0", "a", "", map[string]string{"l": "y"}))
+		srv.Put(kit.Pod("n0", "b", "", map[string]string{"l": "y"})) // stream #1 ends: the reconnect delay starts
+		time.Sleep(kcache.VerifWatchRetryDelay - off)
+		switch trigger {
+		case "close":
+			go g.ctl.Close()
+		case "cancel":
+			g.cancel()
+		case "list-error":
+			close(release)
+			released = true
+		}
+		if !waitCh(g.ctl.Done(), virtBound) {
+			r.V(prop, "done-hang", "%s reached the controller %v before the expiry of a pending reconnect delay (watcher held %v at its log points): Done() not closed %v later (Error() = %v)\n%s", trigger, off, hold, virtBound, g.ctl.Error(), kit.CensusText(kit.Census(), 12))
+			return
+		}
+		if trigger == "list-error" && g.ctl.Error() == nil {
+			r.V(prop, "failure-not-reported", "failing relist at the expiry of a reconnect delay: Done() closed but Error() is nil")
+		}
+		if !released {
+			close(release)
+			released = true
+		}
+		g.cancel()
+		core.Barrier()
+		if gs := kit.Census(); len(gs) > 0 {
+			r.V("C12", "goroutine-leak", "%s at the expiry of a reconnect delay: %d library goroutine(s) remain: %v\n%s", trigger, len(gs), kit.CensusKeys(gs), kit.CensusText(gs, 6))
+		}
+		if n := srv.UnstoppedStreams(); n > 0 {
+			r.V("C12", "watch-stream-left-open", "%s at the expiry of a reconnect delay: %d watch stream(s) handed out by the client were never stopped", trigger, n)
+		}
+		r.Add("stops-at-reconnect-expiry", 1)
+		r.Add("terminations", 1)
+		r.Key(id)
+	}}
+}
+
 func init() {
 	register("E13", func(tier string, seed uint64) []Case {
 		var cases []Case
@@ -545,6 +665,9 @@ func init() {
 					cases = append(cases, e13CtxCase(seed, sc, st, k, KC))
 				}
 			}
+		}
+		for i := 0; i < tierPick(tier, 96, 1920); i++ {
+			cases = append(cases, eRetryExpiryCase("C12", seed, i, []string{"close", "cancel"}[i%2]))
 		}
 		return cases
 	})
